@@ -88,6 +88,78 @@ def register(OPS, drv):
     def op_pathfun(job):
         return [[os.path.dirname(p), os.path.basename(p)] for p in job["inputs"]]
 
+    def op_gm_history(job):
+        """ONE World in ONE process: a sequence of steps
+             {op: list, requests: [{data, tls}]}
+             {op: write|remove|symlink, path, data|target, keep_mtime}
+           keep_mtime: the directory that holds `path` gets its previous atime/mtime back (os.utime),
+           as rsync -t / cp -p / tar do."""
+        w = drv.World(job)
+        try:
+            broot = os.fsencode(w.root)
+            out = []
+            for st in job["steps"]:
+                if st["op"] == "list":
+                    res = []
+                    for r in st["requests"]:
+                        o = drv.serve_once(w.config, drv.s2b(r["data"]), tls=r.get("tls", False), trace=True)
+                        o["opened"] = [p[len(w.root):] for cls, p in (o["trace"] or [])
+                                       if cls == "open" and p.startswith(w.root + "/")]
+                        o["trace"] = None
+                        res.append(o)
+                    out.append({"results": res})
+                    continue
+                p = os.path.join(broot, drv.s2b(st["path"]))
+                d = os.path.dirname(p)
+                before = os.stat(d)
+                if st["op"] == "write":
+                    with open(p, "wb") as f:
+                        f.write(drv.s2b(st.get("data", "")))
+                elif st["op"] == "remove":
+                    os.unlink(p)
+                elif st["op"] == "symlink":
+                    os.symlink(drv.s2b(st["target"]), p)
+                else:
+                    raise ValueError("unknown step " + st["op"])
+                if st.get("keep_mtime"):
+                    os.utime(d, ns=(before.st_atime_ns, before.st_mtime_ns))
+                after = os.stat(d)
+                out.append({"dir_mtime_ns_before": before.st_mtime_ns, "dir_mtime_ns_after": after.st_mtime_ns})
+            return {"steps": out}
+        finally:
+            w.close()
+
+    def op_gm_fresh(job):
+        """Reference listings: every state is served by a process that has never served anything
+        (a fork of this driver, which only runs gm_fresh jobs)."""
+        import json
+        outs = []
+        for stt in job["states"]:
+            rfd, wfd = os.pipe()
+            pid = os.fork()
+            if pid == 0:
+                try:
+                    os.close(rfd)
+                    w = drv.World(stt)
+                    try:
+                        res = [drv.serve_once(w.config, drv.s2b(q["data"]), tls=q.get("tls", False)) for q in stt["requests"]]
+                    finally:
+                        w.close()
+                    payload = json.dumps({"ok": True, "results": res})
+                except BaseException as e:  # noqa
+                    payload = json.dumps({"ok": False, "err": repr(e)})
+                with os.fdopen(wfd, "w") as f:
+                    f.write(payload)
+                os._exit(0)
+            os.close(wfd)
+            with os.fdopen(rfd) as f:
+                data = f.read()
+            os.waitpid(pid, 0)
+            outs.append(json.loads(data))
+        return outs
+
+    OPS["gm_history"] = op_gm_history
+    OPS["gm_fresh"] = op_gm_fresh
     OPS["gm_world"] = op_gm_world
     OPS["gm_select"] = op_gm_select
     OPS["pyint"] = op_pyint
